@@ -370,3 +370,16 @@ Definition alias_owner (visit : list (string * string)) (alias : string) : optio
   else if existsb (fun h => String.eqb (fst h) alias) visit then None
   else option_map fst (find (fun h => String.eqb (snd h) alias)
                             (isort alias_ltb (filter (fun h => negb (String.eqb (fst h) default_host)) visit))).
+
+(* configmap/tcpservices.go: the keys of the tcp-services ConfigMap are port numbers as text
+   ("9000", "09000" and "+9000" are one port).  visit = the map as (key, value); valid = the
+   declaration names a service and port that exist.  The keys are visited in sorted order
+   and a port is configured by its first valid declaration (/repo c870730); before, every
+   declaration of the port wrote the name and the options of one shared backend, in the
+   visiting order of the map (tcp_name_old: the last one visited names it). *)
+Definition tcp_declares (valid : string -> bool) (port : Z) (kv : string * string) : bool :=
+  valid (snd kv) && match parse_int (fst kv) with Some p => Z.eqb p port | None => false end.
+Definition tcp_owner (valid : string -> bool) (visit : list (string * string)) (port : Z) : option (string * string) :=
+  find (tcp_declares valid port) (isort alias_ltb visit).
+Definition tcp_name_old (valid : string -> bool) (visit : list (string * string)) (port : Z) : option (string * string) :=
+  find (tcp_declares valid port) (rev visit).
